@@ -313,3 +313,73 @@ ASSUMED = {'_begin_chips_pushing': ('showdown_hands_known',)}
 # run-time guard: the boundary / step components (engine + flow) hold on real hands; the known findings F6a / F6b are not played
 GUARD_TABLE = {k: (tuple(c for c in pre if c not in ('pots_contended',)), tuple(c for c in post if c not in ('pots_contended',)))
                for k, (pre, post) in TABLE07.items()}
+
+
+# ---- C09: under automation set A every state between operations is A-quiescent ------------------------------------------------------
+from pokerkit.state import Automation
+
+
+def quiescent_but(s, skip):
+    """no operation of an automated kind -- other than the kinds in `skip` -- is available: for each such kind its verifier
+    (default arguments) would refuse"""
+    kinds = ((Automation.ANTE_POSTING, accepts_post_ante), (Automation.BET_COLLECTION, accepts_collect_bets),
+             (Automation.BLIND_OR_STRADDLE_POSTING, accepts_post_blind_or_straddle), (Automation.CARD_BURNING, accepts_burn_card),
+             (Automation.HOLE_DEALING, accepts_deal_hole), (Automation.BOARD_DEALING, accepts_deal_board),
+             (Automation.RUNOUT_COUNT_SELECTION, accepts_select_runout_count),
+             (Automation.HOLE_CARDS_SHOWING_OR_MUCKING, accepts_show_or_muck_hole_cards), (Automation.HAND_KILLING, accepts_kill_hand),
+             (Automation.CHIPS_PUSHING, accepts_push_chips), (Automation.CHIPS_PULLING, accepts_pull_chips))
+    return all(any(k is x for x in skip) or k not in s.automations or not f(s) for k, f in kinds)
+
+
+def quiescent(s):
+    """the engine has performed every automated step `as soon as it became available`"""
+    return quiescent_but(s, ())
+
+
+def quiescent_but_ante(s):
+    return quiescent_but(s, (Automation.ANTE_POSTING,))
+
+
+def quiescent_but_blind(s):
+    return quiescent_but(s, (Automation.BLIND_OR_STRADDLE_POSTING,))
+
+
+def quiescent_but_dealing(s):
+    return quiescent_but(s, (Automation.HOLE_DEALING, Automation.BOARD_DEALING))
+
+
+def quiescent_but_showdown(s):
+    return quiescent_but(s, (Automation.RUNOUT_COUNT_SELECTION, Automation.HOLE_CARDS_SHOWING_OR_MUCKING))
+
+
+def quiescent_but_showing(s):
+    return quiescent_but(s, (Automation.HOLE_CARDS_SHOWING_OR_MUCKING,))
+
+
+def quiescent_but_kill(s):
+    return quiescent_but(s, (Automation.HAND_KILLING,))
+
+
+def quiescent_but_push(s):
+    return quiescent_but(s, (Automation.CHIPS_PUSHING,))
+
+
+def quiescent_but_pull(s):
+    return quiescent_but(s, (Automation.CHIPS_PULLING,))
+
+
+def quiescent_if_no_street(s):
+    """a voluntary show once the streets are over happens between operations: nothing automated is pending then"""
+    return s.street_index is not None or quiescent(s)
+
+
+# loop invariants of the automation loops, in source order of the `while` statements of each step
+LOOP_INV09 = {'_update_ante_posting': [('quiescent_but_ante',)], '_update_blind_or_straddle_posting': [('quiescent_but_blind',)],
+              '_update_dealing': [('quiescent_but_dealing',)], '_update_showdown': [('quiescent_but_showdown',), ('quiescent_but_showing',)],
+              '_update_hand_killing': [('quiescent_but_kill',)], '_update_chips_pushing': [('quiescent_but_push',)],
+              '_update_chips_pulling': [('quiescent_but_pull',)]}
+
+TABLE09 = {k: (pre, post + ('quiescent',)) for k, (pre, post) in TABLE07.items()}
+
+for _k in ('show_or_muck_hole_cards', '_update_showdown'):
+    TABLE09[_k] = (TABLE09[_k][0] + ('quiescent_if_no_street',), TABLE09[_k][1])
